@@ -547,5 +547,54 @@ pub fn run(rep: &mut Report, driver: &str, workers: usize, thorough: bool, seed:
             }
         }
     }
+    // (i) a history of evaluations whose INPUT could not be serialized (the failure arises deep inside nested containers),
+    //     then an ordinary input: `RuleSet::evaluate(&T)` of the ordinary input gives what it gave before that history — on
+    //     this thread, for this ruleset and for another one
+    {
+        use crate::serval::SerVal as SV;
+        let rules = vec![reff("id"), idxk(reff("customer"), "name"), idxn(reff("lines"), 1)];
+        let env = EnvSpec { syms: vec![], fns: vec![] };
+        let shared = Arc::new(Shared::default());
+        let good = SV::Struct("Order".into(), vec![("id".into(), SV::U32(7)), ("customer".into(), SV::Struct("C".into(), vec![("name".into(), SV::Str("Ada".into()))])), ("lines".into(), SV::Seq(vec![SV::I64(5), SV::Map(vec![(SV::Str("k".into()), SV::Seq(vec![SV::F64(1.5)]))])]))]);
+        let bads = vec![
+            SV::Struct("L".into(), vec![("entries".into(), SV::Seq(vec![SV::I8(1), SV::Struct("E".into(), vec![("amount".into(), SV::U128(u128::MAX))])]))]),
+            SV::Seq(vec![SV::Seq(vec![SV::Seq(vec![SV::Map(vec![(SV::U32(1), SV::U32(2))])])])]),
+            SV::Map(vec![(SV::Str("a".into()), SV::Tuple(vec![SV::Some(Box::new(SV::Fail("no".into())))]))]),
+            SV::StructVariant("E".into(), "V".into(), vec![("f".into(), SV::TupleVariant("E".into(), "W".into(), vec![SV::U128(u128::MAX)]))]),
+        ];
+        let show = |r: Result<Vec<reval::ruleset::Outcome>, reval::Error>| match r {
+            Ok(os) => format!("(outcomes{})", os.iter().map(|o| format!(" {}", enc_result(&o.value))).collect::<String>()),
+            Err(e) => format!("EVALERR {}", e),
+        };
+        let r = catch_unwind(AssertUnwindSafe(|| {
+            let rs = build_ruleset(&rules, &env, &shared).expect("ruleset");
+            let rs_other = build_ruleset(&rules[..1], &env, &shared).expect("ruleset");
+            let before = show(block_on(rs.evaluate(&good)));
+            let before_other = show(block_on(rs_other.evaluate(&good)));
+            let n = if thorough { 5000 } else { 700 };
+            let mut first_bad = None;
+            for k in 0..n {
+                let _ = block_on(rs.evaluate(&bads[k % bads.len()]));
+                if k % 100 == 99 || k < 8 {
+                    let now = show(block_on(rs.evaluate(&good)));
+                    let now_other = show(block_on(rs_other.evaluate(&good)));
+                    if (now != before || now_other != before_other) && first_bad.is_none() {
+                        first_bad = Some((k + 1, if now != before { now } else { now_other }));
+                    }
+                }
+            }
+            (before, first_bad, n)
+        }));
+        sr.count("unserializable-history", true);
+        sr.hist("kind", "unserializable-history");
+        match r {
+            Err(p) => rep.add_finding(Finding { kind: "impl-violates-property".into(), stream: "poll-schedules".into(), case: "unserializable-history".into(), human: "evaluate(&T) with inputs that cannot be serialized, then an ordinary input".into(), impl_out: format!("PANIC {}", panic_msg(p)), model_out: String::new(), predicate: "earlier evaluations leave nothing behind".into(), signature: "C12 unserializable-history".into() }),
+            Ok((before, bad, n)) => {
+                if let Some((k, got)) = bad {
+                    rep.add_finding(Finding { kind: "impl-violates-property".into(), stream: "poll-schedules".into(), case: "unserializable-history".into(), human: format!("after {} (of {}) calls of RuleSet::evaluate(&T) whose input fails to serialize inside nested containers, evaluate(&T) of an ordinary input differs from what it gave before", k, n), impl_out: got.chars().take(300).collect(), model_out: before.chars().take(300).collect(), predicate: "the outcomes depend only on the ruleset and the input, not on earlier evaluations (failed ones included)".into(), signature: "C12 unserializable-history".into() });
+                }
+            }
+        }
+    }
     rep.streams.push(sr);
 }
